@@ -150,7 +150,16 @@ fn check_path(o: &mut Out, props: &str, scen: &str, seed: u64, sp: &SP, w: &Worl
         if !pdx.goal.is_satisfied(&p[p.len() - 1]) { o.report(scen, seed, format!("path ends at {:?}, outside the goal region of the current problem", p[p.len() - 1].values)); }
     }
     if want("C01") || want("C15") {
-        for (k, s) in p.iter().enumerate() { if !w.free(s.values[0], s.values[1]) { o.report(scen, seed, format!("path state #{} {:?} is rejected by the checker", k, s.values)); break; } }
+        // (the last state of an RRT-Connect path is the sampled goal-tree root, which RRT-Connect never validates: known finding D3)
+        let n_valid = if scen.contains("Connect") { p.len().saturating_sub(1) } else { p.len() };
+        for (k, s) in p.iter().enumerate().take(n_valid) { if !w.free(s.values[0], s.values[1]) { o.report(scen, seed, format!("path state #{} {:?} is rejected by the checker", k, s.values)); break; } }
+        // stronger: every state on the path was itself SUBMITTED to the checker and accepted (a bit-level twin of a validated state
+        // does not count).  Exempt: the last state of an RRT-Connect path (the sampled goal-tree root, known finding D3).
+        let accepted: std::collections::HashSet<(u64, u64)> = w.log.lock().unwrap().iter().filter(|q| q.2).map(|q| (q.0.to_bits(), q.1.to_bits())).collect();
+        let n_checked = if scen.contains("Connect") { p.len().saturating_sub(1) } else { p.len() };
+        for (k, s) in p.iter().enumerate().take(n_checked) {
+            if !accepted.contains(&(s.values[0].to_bits(), s.values[1].to_bits())) { o.report(scen, seed, format!("path state #{} {:?} was never submitted to the validity checker (no accepted query for exactly this state)", k, s.values)); break; }
+        }
     }
     if want("C04") { for (k, s) in p.iter().enumerate() { if !sp.satisfies_bounds(s) { o.report(scen, seed, format!("path state #{} {:?} is out of bounds", k, s.values)); break; } } }
     let lvsl = sp.get_longest_valid_segment_length();
@@ -211,6 +220,27 @@ fn fam_star_dense(o: &mut Out, props: &str, seed0: u64, deadline: Instant) {
                 inst.setup(pdx.clone(), w.clone());
                 if let Ok(path) = inst.solve(Duration::from_millis(300)) {
                     check_path(o, props, &format!("rrt-star dense world{} step{} radius{}", wk, step, radius), seed, &sp, &w, &pdx, &path, Inst::limit(Pl::Star, step, radius));
+                }
+            }
+        }
+    }
+}
+
+/// many short RRT-Connect runs in cluttered worlds: the junction of the two trees, connect steps that are blocked and the swap of
+/// the trees are exercised far more often than in the generic family (C01, C02, C03, C05, C15)
+fn fam_connect_dense(o: &mut Out, props: &str, seed0: u64, deadline: Instant) {
+    let sp = space();
+    'outer: for ds in 0..14u64 {
+        for wk in [7u64, 0, 2] {
+            for (qi, step) in [0.3, 0.7].into_iter().enumerate() {
+                if Instant::now() > deadline { break 'outer; }
+                let seed = seed0.wrapping_mul(1000) + 40_000 + (ds * 8 + wk) * 2 + qi as u64;
+                let w = if wk == 7 { Arc::new(World { boxes: (0..6).flat_map(|i| (0..6).map(move |j| (1.2 + i as f64 * 1.5, 1.35 + i as f64 * 1.5, 0.9 + j as f64 * 1.6 + (i % 2) as f64 * 0.5, 1.1 + j as f64 * 1.6 + (i % 2) as f64 * 0.5))).collect(), log: Mutex::new(vec![]) }) } else { world(wk) };
+                let pdx = pd(&sp, (0.5 + (ds % 5) as f64 * 0.2, 0.4 + (ds % 3) as f64), (9.0, 8.5 - (ds % 4) as f64), 0.5);
+                let mut inst = Inst::new(Pl::Connect, step, 1.0, 0.1, seed);
+                inst.setup(pdx.clone(), w.clone());
+                if let Ok(path) = inst.solve(Duration::from_millis(300)) {
+                    check_path(o, props, &format!("rrt-connect dense Connect world{} step{}", wk, step), seed, &sp, &w, &pdx, &path, step);
                 }
             }
         }
@@ -282,10 +312,12 @@ fn fam_histories(o: &mut Out, props: &str, seed0: u64, deadline: Instant) {
                     }
                     9 => { // a start just outside the sampling bounds (the checker accepts it): the path still starts exactly there.
                            // Only for C02: such a path legitimately has an out-of-bounds first state (C04 premise: start inside).
-                        if props == "C02" {
+                        if props == "C02" || props == "C01" {
+                            // a sliver obstacle sits exactly on the boundary x = 0: the projection of the start onto the bounds is invalid
+                            let edge = Arc::new(World { boxes: vec![(-0.01, 0.02, 0.0, 10.0)], log: Mutex::new(vec![]) });
                             let outside = pd(&sp, (-0.25, 5.0 + ds as f64), (2.5, 5.0), 0.6);
-                            inst.setup(outside.clone(), w_open.clone());
-                            if let Ok(path) = inst.solve(Duration::from_millis(400)) { check_path(o, props, &scen, seed, &sp, &w_open, &outside, &path, Inst::limit(pl, step, radius)); }
+                            inst.setup(outside.clone(), edge.clone());
+                            if let Ok(path) = inst.solve(Duration::from_millis(400)) { check_path(o, props, &scen, seed, &sp, &edge, &outside, &path, Inst::limit(pl, step, radius)); }
                         }
                     }
                     10 => { // PRM: roadmap built for a valid start, then a new problem whose start lies marginally inside the wall
@@ -329,8 +361,61 @@ fn same(a: &Result<Path<S>, PlanningError>, b: &Result<Path<S>, PlanningError>) 
     }
 }
 /// C07: two identically seeded instances, same call sequence (incl. early direct hits, re-setup, repeated solve)
+/// a space whose sampler stalls past the roadmap construction budget on its N-th draw: every PRM built over it has drawn exactly N samples
+struct PinnedSpace { inner: SP, n: usize, count: std::sync::atomic::AtomicUsize }
+impl StateSpace for PinnedSpace {
+    type StateType = S;
+    fn distance(&self, a: &S, b: &S) -> f64 { self.inner.distance(a, b) }
+    fn interpolate(&self, a: &S, b: &S, t: f64, o: &mut S) { self.inner.interpolate(a, b, t, o) }
+    fn enforce_bounds(&self, s: &mut S) { self.inner.enforce_bounds(s) }
+    fn satisfies_bounds(&self, s: &S) -> bool { self.inner.satisfies_bounds(s) }
+    fn sample_uniform(&self, rng: &mut impl Rng) -> Result<S, StateSamplingError> {
+        let k = self.count.fetch_add(1, std::sync::atomic::Ordering::SeqCst) + 1;
+        let s = self.inner.sample_uniform(rng);
+        if k % self.n == 0 { std::thread::sleep(Duration::from_millis(120)); }
+        s
+    }
+    fn get_longest_valid_segment_length(&self) -> f64 { self.inner.get_longest_valid_segment_length() }
+}
+/// C07 for PRM: with the number of samples pinned, two identically seeded planners build the same roadmap and answer alike;
+/// the seeds include 0 and u64::MAX
+fn fam_prm_determinism(o: &mut Out, seed0: u64) {
+    for seed in [0u64, seed0.wrapping_mul(1000) + 900, u64::MAX] {
+        let run = || {
+            let sp = Arc::new(PinnedSpace { inner: RealVectorStateSpace::new(2, Some(vec![(0.0, 10.0), (0.0, 10.0)])).unwrap(), n: 150, count: Default::default() });
+            let pdx = Arc::new(ProblemDefinition { space: sp.clone(), start_states: vec![RealVectorState::new(vec![1.0, 1.0])], goal: Arc::new(DiscGoal { c: (8.0, 8.0), r: 1.5 }) });
+            let mut prm: PRM<S, PinnedSpace, DiscGoal> = PRM::new(0.1, 2.0, &PlannerConfig { seed: Some(seed) });
+            let vc: Arc<dyn StateValidityChecker<S>> = world(3);
+            prm.setup(pdx, vc);
+            let _ = prm.construct_roadmap();
+            (prm.get_roadmap().len(), prm.solve(Duration::from_secs(3)))
+        };
+        let (a, b) = (run(), run());
+        if a.0 != b.0 { continue; }      // the pin did not hold on this machine: nothing to compare
+        if !same(&a.1, &b.1) { o.report("determinism PRM", seed, format!("two PRM planners seeded with {} drew {} samples each and answer differently", seed, a.0)); }
+    }
+}
 fn fam_determinism(o: &mut Out, seed0: u64, deadline: Instant) {
     let sp = space();
+    // RRT-Connect with a goal region that overlaps an obstacle: however the goal-tree root is chosen, it is chosen from the seed
+    for ds in 0..8u64 {
+        let seed = seed0.wrapping_mul(1000) + 850 + ds;
+        let over = pd(&sp, (1.0, 1.0), (5.55, 2.0 + ds as f64 * 0.7), 0.45);      // the wall of world(1) covers x in [4.5, 5.5]
+        let run = || {
+            let mut inst = Inst::new(Pl::Connect, 0.7, 1.4, 0.2, seed);
+            let w = world(1);
+            let mut rs = vec![];
+            inst.setup(over.clone(), w.clone()); rs.push(inst.solve(Duration::from_millis(400)));
+            inst.setup(over.clone(), w.clone()); rs.push(inst.solve(Duration::from_millis(400)));
+            rs
+        };
+        let (a, b) = (run(), run());
+        for i in 0..a.len() {
+            // after a solve that ran out of time the generator state depends on the wall clock: nothing further is comparable
+            if matches!(a[i], Err(PlanningError::Timeout)) || matches!(b[i], Err(PlanningError::Timeout)) { break; }
+            if !same(&a[i], &b[i]) { o.report("determinism Connect goal over obstacle", seed, format!("two identically seeded instances disagree at solve #{}", i)); break; }
+        }
+    }
     let mut k = 0u64;
     'outer: for pl in [Pl::Rrt, Pl::Connect, Pl::Star] {
         for ds in 0..6u64 {
@@ -508,10 +593,10 @@ fn fam_extension_reference(o: &mut Out, seed0: u64, deadline: Instant) {
                 let cfg = PlannerConfig { seed: Some(seed) };
                 let name = if star { "RRT*" } else { "RRT" };
                 let r = std::panic::catch_unwind(std::panic::AssertUnwindSafe(|| {
-                    if star { let mut p: RRTStar<S, LogSpace, LogGoal> = RRTStar::new(step, 0.1, radius, &cfg); p.setup(pdx.clone(), vc.clone()); let _ = p.solve(Duration::from_millis(250)); }
-                    else { let mut p: RRT<S, LogSpace, LogGoal> = RRT::new(step, 0.1, &cfg); p.setup(pdx.clone(), vc.clone()); let _ = p.solve(Duration::from_millis(250)); }
+                    if star { let mut p: RRTStar<S, LogSpace, LogGoal> = RRTStar::new(step, 0.1, radius, &cfg); p.setup(pdx.clone(), vc.clone()); p.solve(Duration::from_millis(250)) }
+                    else { let mut p: RRT<S, LogSpace, LogGoal> = RRT::new(step, 0.1, &cfg); p.setup(pdx.clone(), vc.clone()); p.solve(Duration::from_millis(250)) }
                 }));
-                if r.is_err() { continue; }
+                let solved = match r { Ok(x) => x, Err(_) => continue };
                 let evs = log.lock().unwrap().clone();
                 let mut tree: Vec<S> = vec![start.clone()];
                 let lvsl = sp.inner.get_longest_valid_segment_length();
@@ -526,11 +611,15 @@ fn fam_extension_reference(o: &mut Out, seed0: u64, deadline: Instant) {
                     w.free(b.values[0], b.values[1])
                 };
                 let mut pending: Option<(S, usize, S, bool)> = None;
+                // reference tree bookkeeping (documented RRT* steps 5-8; plain RRT: parent = nearest node)
+                let mut parent: Vec<Option<usize>> = vec![None];
+                let mut cost: Vec<f64> = vec![0.0];
+                let mut clean = true;
                 for ev in evs.iter().take(6000) {
                     match ev {
                         Ev::Sample(q) => {
                             if let Some((pq, bi, exp, valid)) = pending.take() {
-                                if valid { o.report(&scen, seed, format!("iteration with sample {:?}: no node was added although one step from the nearest node {:?} to {:?} is a free motion", pq.values, tree[bi].values, exp.values)); break; }
+                                if valid { o.report(&scen, seed, format!("iteration with sample {:?}: no node was added although one step from the nearest node {:?} to {:?} is a free motion", pq.values, tree[bi].values, exp.values)); clean = false; break; }
                             }
                             let (mut bi, mut bd) = (0usize, sp.inner.distance(&tree[0], q));
                             for i in 1..tree.len() { let dd = sp.inner.distance(&tree[i], q); if dd < bd { bd = dd; bi = i; } }
@@ -540,12 +629,42 @@ fn fam_extension_reference(o: &mut Out, seed0: u64, deadline: Instant) {
                             pending = Some((q.clone(), bi, exp, valid));
                         }
                         Ev::Added(nn) => {
-                            let (q, bi, exp, valid) = match pending.take() { Some(p) => p, None => { o.report(&scen, seed, format!("node {:?} was added without a new sample (more than one node per iteration)", nn.values)); break; } };
+                            let (q, bi, exp, valid) = match pending.take() { Some(p) => p, None => { o.report(&scen, seed, format!("node {:?} was added without a new sample (more than one node per iteration)", nn.values)); clean = false; break; } };
                             if exp.values.iter().zip(&nn.values).any(|(a, b)| a.to_bits() != b.to_bits()) {
-                                o.report(&scen, seed, format!("iteration with sample {:?}: node {:?} was added, but one step of {} from the nearest node {:?} towards the sample is {:?}", q.values, nn.values, step, tree[bi].values, exp.values)); break;
+                                o.report(&scen, seed, format!("iteration with sample {:?}: node {:?} was added, but one step of {} from the nearest node {:?} towards the sample is {:?}", q.values, nn.values, step, tree[bi].values, exp.values)); clean = false; break;
                             }
-                            if !valid { o.report(&scen, seed, format!("iteration with sample {:?}: node {:?} was added although the motion from the nearest node {:?} is blocked", q.values, nn.values, tree[bi].values)); break; }
-                            tree.push(nn.clone());
+                            if !valid { o.report(&scen, seed, format!("iteration with sample {:?}: node {:?} was added although the motion from the nearest node {:?} is blocked", q.values, nn.values, tree[bi].values)); clean = false; break; }
+                            // choose parent: the cheapest neighbour within the radius whose motion to the new node is free (nearest node by default)
+                            let (mut best, mut min_cost) = (bi, cost[bi] + sp.inner.distance(nn, &tree[bi]));
+                            let mut neigh = vec![];
+                            if star {
+                                for i in 0..tree.len() { if sp.inner.distance(nn, &tree[i]) < radius { neigh.push(i); } }
+                                for &i in &neigh { let c = cost[i] + sp.inner.distance(nn, &tree[i]); if c < min_cost && ref_motion(&tree[i], nn) { min_cost = c; best = i; } }
+                            }
+                            tree.push(nn.clone()); parent.push(Some(best)); cost.push(min_cost);
+                            let ni = tree.len() - 1;
+                            // rewire: every other neighbour that gets strictly cheaper through the new node by a free motion
+                            for &i in &neigh {
+                                if parent[ni] == Some(i) { continue; }
+                                let c = cost[ni] + sp.inner.distance(&tree[i], &tree[ni]);
+                                if c < cost[i] && ref_motion(&tree[ni], &tree[i]) { parent[i] = Some(ni); cost[i] = c; }
+                            }
+                        }
+                    }
+                }
+                // C15 / C17: the returned path is the reference tree's parent chain of the node that reached the goal (state for state)
+                if clean && evs.len() < 6000 {
+                    if let Ok(path) = &solved {
+                        let mut chain = vec![];
+                        let mut cur = Some(tree.len() - 1);
+                        let mut guard = 0;
+                        while let Some(i) = cur { chain.push(tree[i].clone()); cur = parent[i]; guard += 1; if guard > tree.len() { break; } }
+                        chain.reverse();
+                        let eq = chain.len() == path.0.len() && chain.iter().zip(&path.0).all(|(a, b)| a.values.iter().zip(&b.values).all(|(x, y)| x.to_bits() == y.to_bits()));
+                        if !eq {
+                            let k = chain.iter().zip(&path.0).position(|(a, b)| a.values != b.values).unwrap_or(chain.len().min(path.0.len()));
+                            o.report(&scen, seed, format!("the returned path ({} states) is not the parent chain of the reference tree built from the same samples by the documented choose-parent / rewire rules ({} states); first difference at state {}: returned {:?}, reference {:?}",
+                                path.0.len(), chain.len(), k, path.0.get(k).map(|s| s.values.clone()), chain.get(k).map(|s| s.values.clone())));
                         }
                     }
                 }
@@ -702,13 +821,14 @@ fn main() {
     let mut o = Out { n: 0 };
     // the planners print progress lines; scenario output is the JSON lines only
     match prop.as_str() {
-        "C07" => fam_determinism(&mut o, seed, deadline),
+        "C07" => { fam_prm_determinism(&mut o, seed); fam_determinism(&mut o, seed, deadline); }
         "C01" | "C02" | "C03" | "C04" | "C05" | "C06" | "C15" | "C18" | "C16" | "C17" | "C08" => {
             let half = Instant::now() + Duration::from_secs_f64(budget / 2.0);
             let p = if prop == "C18" || prop == "C16" || prop == "C17" || prop == "C08" { "all".to_string() } else { prop.clone() };
             if prop == "C06" { fam_deadline(&mut o, seed); }
             if prop == "C04" { let mut r = spaces::Rep { n: 0 }; spaces::fam_convex(&mut r, seed); o.n += r.n; }      // premise of C04: convex regions
             if prop == "C05" { let mut r = spaces::Rep { n: 0 }; spaces::fam_interp(&mut r, seed); o.n += r.n; }      // premise of C05: interpolation at constant speed
+            if prop == "C15" || prop == "C17" { fam_extension_reference(&mut o, seed, Instant::now() + Duration::from_secs_f64(budget / 3.0)); }
             if prop == "C16" { fam_bias(&mut o, seed); fam_extension_reference(&mut o, seed, Instant::now() + Duration::from_secs_f64(budget / 3.0)); }
             // the scripted-roadmap reference (exact link rule, reference BFS) also exposes wrong start connections / over-long first edges
             if prop == "C18" || prop == "C05" || prop == "C02" || prop == "C03" { fam_prm_reference(&mut o, seed); }
@@ -717,6 +837,7 @@ fn main() {
             fam_histories(&mut o, &p, seed, half);
             fam_paths(&mut o, &p, seed, deadline);
             fam_star_dense(&mut o, &p, seed, deadline + Duration::from_secs_f64(budget / 3.0));
+            fam_connect_dense(&mut o, &p, seed, deadline + Duration::from_secs_f64(budget / 2.5));
             let n = PANICS.load(std::sync::atomic::Ordering::SeqCst);
             if n > 0 && (prop == "C08" || prop == "C15" || prop == "C02") { o.report("panic", seed, format!("{} planner call(s) on well-formed inputs panicked", n)); }
         }
